@@ -914,6 +914,7 @@ class Interp:
             if short == 'full_like':
                 a.init = ('full', self.as_scalar(self.ev(e.args[1]), e))
             a.shape_like = like
+            a.alloc_node = e
             return a
         shape_node = e.args[0] if e.args else kw.get('shape')
         shp = self.ev(shape_node)
@@ -931,6 +932,7 @@ class Interp:
         elif short == 'full' and len(e.args) > 2:
             dtype = norm(e.args[2])
         a = Arr(name, short, shape=shape, dtype=dtype)
+        a.alloc_node = e
         if short == 'full':
             fv = e.args[1] if len(e.args) > 1 else kw.get('fill_value')
             a.init = ('full', self.as_scalar(self.ev(fv), e))
@@ -942,6 +944,13 @@ class Interp:
         """Inline a package function (bounded depth) when it is a simple expression helper; else opaque."""
         args = [self.ev(a) for a in e.args]
         kws = {k.arg: self.ev(k.value) for k in e.keywords if k.arg}
+        inl = getattr(self, 'inline_all', None)
+        if inl and self.inline_depth > 0 and not f.is_lambda and f is not self.func and \
+                f.qualname not in getattr(self, 'inline_stack', ()) and not (f.vararg or f.kwarg) and inl(f) and \
+                sum(1 for x in ast.walk(f.node) if isinstance(x, ast.stmt)) <= 400:
+            r = self._inline_shared(f, args, kws, e)
+            if r is not NotImplemented:
+                return r
         if self.inline_depth > 0 and not f.is_lambda or (f.is_lambda and self.inline_depth > 0):
             bind = {}
             for p, a in zip(f.params, args):
@@ -978,6 +987,49 @@ class Interp:
         self.k.events.append(('call', rec))
         return Rat.atom(App('call:' + f.qualname, [self.arg_key(a) for a in args] +
                             [self.arg_key(v) for _, v in sorted(kws.items())]))
+
+    def _inline_shared(self, f, args, kws, e):
+        """execute a package function in place, on this kernel: its loops, stores, calls and events are recorded here
+        (under the current guards and loops), its local names live in their own environment, its return value(s) come
+        back merged.  A kernel split into phases / helpers then reads exactly like the unsplit one."""
+        bind = dict(zip(f.params, args))
+        for kname, v in kws.items():
+            if kname not in f.params + f.kwonly or kname in bind:
+                return NotImplemented
+            bind[kname] = v
+        sub = Interp(self.prog, f, bind, self.inline_depth - 1, strict=self.strict)
+        sub.k = self.k
+        sub.guards = list(self.guards)
+        sub.loops = list(self.loops)
+        sub.fresh = self.fresh
+        sub.inline_all = self.inline_all
+        sub.inline_procedures = getattr(self, 'inline_procedures', False)
+        sub.inline_stack = tuple(getattr(self, 'inline_stack', ())) + (self.func.qualname,)
+        sub.ret_capture = []
+        if hasattr(self, 'cells'):
+            sub.cells = self.cells
+        for name_ in ('cont_stack', 'break_stack'):
+            pass
+        for p, dnode in f.defaults().items():
+            if p not in bind:
+                try:
+                    sub.env[p] = sub.ev(dnode)
+                except AnalysisIncomplete:
+                    pass
+        base = len(self.guards)
+        sub.block(f.node.body)
+        self.fresh = sub.fresh
+        if hasattr(sub, 'cells'):
+            self.cells = sub.cells
+        rets = [(v, g[base:]) for v, g in sub.ret_capture]
+        if not rets:
+            return Rat.atom(App('none', []))
+        if len(rets) == 1:
+            return rets[0][0]
+        val = merge_returns(rets, self)
+        if val is None:
+            self.incomplete(e, 'several return values of %s cannot be merged' % f.qualname)
+        return val
 
     # ------------------------------------------------------------ statements
     def run(self):
@@ -1075,6 +1127,9 @@ class Interp:
 
     def st_Return(self, s):
         v = self.ev(s.value) if s.value is not None else None
+        if getattr(self, 'ret_capture', None) is not None:
+            self.ret_capture.append((v, list(self.guards)))      # a function executed in place: the value goes to the caller
+            return True
         self.k.returns.append((v, list(self.guards)))
         return True
 
@@ -1312,6 +1367,15 @@ class Interp:
             var = '%s@%d' % (s.target.id, self.fresh)
             loop = Loop(var, Rat.const(0), shape_sym(arr.name, 0), Rat.const(1), s, 'range')
             self.env[s.target.id] = Rat.atom(App('read', [arr.name, Rat.sym(var)]))
+        elif self._indexable_iteration(s, it) is not None:
+            # iteration over views / element-wise conditions (alone, zipped, enumerated): an index loop, the targets are
+            # the elements at the index
+            n_, binds = self._indexable_iteration(s, it)
+            self.fresh += 1
+            var = 'i_%s@%d' % (norm(s.target).replace(' ', '').replace(',', '_').replace('(', '').replace(')', '')[:20], self.fresh)
+            loop = Loop(var, Rat.const(0), n_, Rat.const(1), s, 'range')
+            for nm_, mk in binds:
+                self.env[nm_] = mk(Rat.sym(var))
         else:
             # generic iteration: targets become opaque symbols
             self.fresh += 1
@@ -1331,6 +1395,102 @@ class Interp:
         if s.orelse:
             self.block(s.orelse)
         return False
+
+    def _elementwise(self, v):
+        """(length, index -> element) for values that are indexed position by position: 1-D views of arrays, rows of a
+        2-D array (row views), element-wise conditions; None for anything else"""
+        if isinstance(v, View):
+            free = [k for k, ax in enumerate(v.axes) if ax[0] == 'slice']
+            if not free:
+                return None
+            k0 = free[0]
+            lo = v.axes[k0][1] if v.axes[k0][1] is not None else Rat.const(0)
+            hi = v.axes[k0][2]
+            if hi is None:
+                hi = shape_sym(v.arr.name, k0)
+            elif isinstance(hi, Rat) and hi.is_const() and hi.const_value() < 0:
+                hi = shape_sym(v.arr.name, k0) + hi
+            if isinstance(lo, Rat) and lo.is_const() and lo.const_value() < 0:
+                lo = shape_sym(v.arr.name, k0) + lo
+
+            def mk(i, v=v, k0=k0, lo=lo, free=free):
+                axes = list(v.axes)
+                axes[k0] = ('idx', lo + i)
+                if all(ax[0] == 'idx' for ax in axes):
+                    return self.read(v.arr, tuple(ax[1] for ax in axes))
+                return View(v.arr, axes)
+            return hi - lo, mk
+        if isinstance(v, tuple) and v and v[0] in ('cmp', 'and', 'or', 'not', 'truth'):
+            arrs = [a.args[0] for a in walk_atoms(v) if isinstance(a, App) and a.name == 'arr' and a.args and a.args[0] in self.k.arrays]
+            if not arrs:
+                return None
+            return shape_sym(arrs[0], 0), (lambda i, v=v: self.index_cond(v, i))
+        return None
+
+    def _indexable_iteration(self, s, it):
+        """(length, [(target name, index -> value)]) when the loop runs over element-wise values - directly, through
+        zip(..) of such values and arrays, or enumerate(.., start) of either - else None (generic iteration)"""
+        def parts(it, tgt):
+            # -> list of (target node, (length, maker)) or None
+            if isinstance(it, tuple) and it and it[0] == 'iter' and it[1] == 'enumerate' and it[2] and isinstance(tgt, (ast.Tuple, ast.List)) \
+                    and len(tgt.elts) == 2 and isinstance(tgt.elts[0], ast.Name):
+                start = self.as_scalar(it[2][1]) if len(it[2]) > 1 else Rat.const(0)
+                inner = parts(it[2][0], tgt.elts[1])
+                if inner is None:
+                    return None
+                return [(tgt.elts[0], (inner[0][1][0], lambda i, start=start: start + i))] + inner
+            if isinstance(it, tuple) and it and it[0] == 'iter' and it[1] == 'zip' and isinstance(tgt, (ast.Tuple, ast.List)) and \
+                    len(tgt.elts) == len(it[2]):
+                out = []
+                for a, t_ in zip(it[2], tgt.elts):
+                    p = parts(a, t_)
+                    if p is None:
+                        return None
+                    out += p
+                return out
+            ew = self._elementwise(it)
+            if ew is None and isinstance(tgt, ast.Name):
+                arr = self.as_arr(it, None) if isinstance(it, (Arr, tuple)) and not (isinstance(it, tuple) and it and it[0] in ('iter',)) else None
+                if arr is not None:
+                    ew = (shape_sym(arr.name, 0), lambda i, arr=arr: self.read(arr, (i,)))
+            if ew is None:
+                return None
+            if isinstance(tgt, ast.Name):
+                return [(tgt, ew)]
+            if isinstance(tgt, (ast.Tuple, ast.List)):
+                # unpacking a row view element by element: for (a, b, c) in rows
+                out = []
+                for k_, t_ in enumerate(tgt.elts):
+                    if not isinstance(t_, ast.Name):
+                        return None
+                    out.append((t_, (ew[0], lambda i, k_=k_, mk=ew[1]: self._component(mk(i), k_))))
+                return out
+            return None
+        p = parts(it, s.target)
+        if p is None:
+            return None
+        # only when something element-wise (a view or a condition) takes part: plain arrays / literal tables keep the
+        # generic form the table rules read
+        def has_ew(it):
+            if self._elementwise(it) is not None:
+                return True
+            return isinstance(it, tuple) and it and it[0] == 'iter' and it[1] in ('zip', 'enumerate') and any(has_ew(a) for a in it[2])
+        if not has_ew(it):
+            return None
+        lengths = [ln for t_, (ln, mk) in p]
+        return lengths[0], [(t_.id, mk) for t_, (ln, mk) in p if isinstance(t_, ast.Name)]
+
+    def _component(self, v, k_):
+        if isinstance(v, View):
+            free = [x for x, ax in enumerate(v.axes) if ax[0] == 'slice']
+            if free:
+                axes = list(v.axes)
+                lo = axes[free[0]][1] if axes[free[0]][1] is not None else Rat.const(0)
+                axes[free[0]] = ('idx', lo + Rat.const(k_))
+                if all(ax[0] == 'idx' for ax in axes):
+                    return self.read(v.arr, tuple(ax[1] for ax in axes))
+                return View(v.arr, axes)
+        return Rat.atom(App('unpack', [self.as_scalar(v), Rat.const(k_)]))
 
     def loop_body(self, s, loop):
         assigned = _assigned_names(s.body)
@@ -1688,9 +1848,12 @@ def _read_before_write(stmts, name):
     return False
 
 
-def interpret(prog, func, args=None, strict=True, inline_depth=3, inline_procedures=False):
+def interpret(prog, func, args=None, strict=True, inline_depth=3, inline_procedures=False, inline_all=None):
+    """inline_all: None, or a predicate Func -> bool naming the package functions that are executed in place (phases
+    of a split kernel); everything else keeps the default treatment (expression helpers folded, the rest call records)"""
     it = Interp(prog, func, args, strict=strict, inline_depth=inline_depth)
     it.inline_procedures = inline_procedures
+    it.inline_all = inline_all
     for p, dnode in func.defaults().items():
         pass
     return it.run()
